@@ -429,10 +429,15 @@ def _is_attr(node, base, attr):
     return isinstance(node, ast.Attribute) and node.attr == attr and isinstance(node.value, ast.Name) and node.value.id == base
 
 
-def gen_control(repo):
+def _ctl_header():
     from sqlparse import lexer, keywords
     from sqlparse.engine import filter_stack
     import sqlparse
+    return lexer, keywords, filter_stack, sqlparse
+
+
+def gen_control_init(repo):
+    lexer, keywords, filter_stack, sqlparse = _ctl_header()
     L = ['import SqlModel.Control', 'namespace Sql.Gen']
     meta = {}
     # --- get_default_instance
@@ -512,6 +517,15 @@ def gen_control(repo):
     L.append('/-- the calls of `default_initialization`, in source order (dictionary ids = order of first mention: %s) -/' % ', '.join(dict_names))
     L.append('def defaultInitOps : List CfgOp := [%s]' % ', '.join(cfg))
     meta['defaultInitOps'] = cfg
+    L.append('end Sql.Gen')
+    L.append('')
+    return {'ControlInit.lean': '\n'.join(L)}, {'control_init': meta}
+
+
+def gen_control_run(repo):
+    lexer, keywords, filter_stack, sqlparse = _ctl_header()
+    L = ['import SqlModel.Control', 'namespace Sql.Gen']
+    meta = {}
     # --- FilterStack.run: which stages are inside the try whose handler turns RecursionError into SQLParseError
     fn = _src_tree(filter_stack.FilterStack.run).body[0]
     stages = {'lex': 'tokenize', 'pre': 'preprocess', 'split': 'StatementSplitter', 'group': 'grouping', 'stmt': 'stmtprocess', 'post': 'postprocess', 'yield': None}
@@ -574,6 +588,15 @@ def gen_control(repo):
         L.append('def %s : Bool := %s' % (k, 'true' if v else 'false'))
     meta['entryFacts'] = facts
     # --- get_tokens input normalisation: the fallback codec for undecodable bytes
+    L.append('end Sql.Gen')
+    L.append('')
+    return {'ControlRun.lean': '\n'.join(L)}, {'control_run': meta}
+
+
+def gen_control_codec(repo):
+    lexer, keywords, filter_stack, sqlparse = _ctl_header()
+    L = ['import SqlModel.Control', 'namespace Sql.Gen']
+    meta = {}
     # every `text.decode(x)` call of get_tokens, in source order: decode(encoding) | decode('<primary>') | decode('<fallback>') in the except branch
     gt = _src_tree(lexer.Lexer.get_tokens).body[0]
     decs = []
@@ -595,15 +618,45 @@ def gen_control(repo):
     meta['fallbackCodec'] = decs[2][2]
     L.append('end Sql.Gen')
     L.append('')
-    return {'ControlIR.lean': '\n'.join(L)}, {'control': meta}
+    return {'ControlCodec.lean': '\n'.join(L)}, {'control_codec': meta}
 
 
-_generate_tables = generate
+def gen_control_aggregate(repo):
+    return {'ControlIR.lean': 'import SqlModel.Generated.ControlInit\nimport SqlModel.Generated.ControlRun\nimport SqlModel.Generated.ControlCodec\n'}, {}
 
 
-def generate(repo):
-    files, meta = _generate_tables(repo)
-    f2, m2 = gen_control(repo)
-    files.update(f2)
-    meta.update(m2)
-    return files, meta
+def _gen_tables(repo):
+    L = ['import SqlModel.Tree', 'namespace Sql.Gen']
+    meta = {}
+    gen_splitter(L, meta)
+    gen_classes(L, meta)
+    L.append('end Sql.Gen')
+    L.append('')
+    return {'Tables.lean': '\n'.join(L)}, {'tables': meta}
+
+
+def _gen_grouping(repo):
+    gmeta = {}
+    return {'GroupingTables.lean': gen_grouping(gmeta)}, {'grouping': gmeta}
+
+
+def _gen_filters(which):
+    def f(repo):
+        import translate_filters
+        files, meta = translate_filters.generate_part(which)
+        return files, meta
+    return f
+
+
+GENERATORS = [
+    (_gen_tables, ['Tables.lean']),
+    (_gen_grouping, ['GroupingTables.lean']),
+    (_gen_filters('options'), ['OptionTable.lean']),
+    (_gen_filters('case'), ['CaseTables.lean']),
+    (_gen_filters('filter'), ['FilterTables.lean']),
+    (_gen_filters('indent'), ['IndentTables.lean']),
+    (gen_control_init, ['ControlInit.lean']),
+    (gen_control_run, ['ControlRun.lean']),
+    (gen_control_codec, ['ControlCodec.lean']),
+    (gen_control_aggregate, ['ControlIR.lean']),
+]
